@@ -13,7 +13,66 @@
    (Model.Requests.group_by_topic_and_partition, characterised by the C04_group_* theorems); text fields appear as
    their ASCII / UTF-8 bytes ([abytes] / [ubytes]). *)
 From AV Require Import Base.Util Model.Prim Model.MsgSet Model.Requests Model.KafkaSpecReq Model.ClientVersion
-     Proofs.ReqParsePrim Proofs.ReqParseGroup Proofs.ReqParseApis Proofs.ClientVersionFacts.
+     Proofs.Truncation Proofs.ReqParsePrim Proofs.ReqParseGroup Proofs.ReqParseApis Proofs.ReqParseProduce
+     Proofs.ReqParseProducer Proofs.ClientVersionFacts.
+
+(* ---- Produce v0 / v1 / v2 ----
+   Vocabulary (Proofs/ReqParseProduce.v): [plain_pmsg off now m] = the fields of message m as the grammar sees them
+   (timestamp present exactly for format 1; the clock reading [now] when m carries none); [uncompressed m] = codec
+   bits 0 and key/value byte strings; [canon_produce clock payloads] = the grouped payloads, every message as
+   SPlain (plain_pmsg 0 ..) in its original order, clock readings threaded exactly as the encoder consumes them.
+   The parser checks every CRC, so the theorem includes: every message carries the valid CRC-32 of its body. *)
+Theorem C04_produce_uncompressed : forall orc clock cid corr payloads acks timeout v w,
+  encode_produce_request clock cid corr payloads acks timeout v = Ok w ->
+  topics_present pr_topic payloads = true -> 0 <= v ->
+  all_uncompressed payloads = true ->
+  parse_request orc w = Some (mkSreq 0 (produce_header_version v) corr (Some cid)
+                                     (SProduce acks timeout (canon_produce clock payloads))).
+Proof. exact produce_plain_parses. Qed.
+Print Assumptions C04_produce_uncompressed.
+
+(* general form, compressed wrappers included: [topics_view orc clock 0 g T] says that T lists, topic by topic and
+   partition by partition in the order of g, one view per message: SPlain for an uncompressed message, and for a
+   message with codec bits gzip (snappy) whose value inflates - by the oracle - to the encoding of a set of
+   uncompressed messages, SWrap with the views of those messages in order ([top_view], [inner_view]). *)
+Theorem C04_produce : forall orc clock cid corr payloads acks timeout v w T,
+  encode_produce_request clock cid corr payloads acks timeout v = Ok w ->
+  topics_present pr_topic payloads = true -> 0 <= v ->
+  topics_view orc clock 0 (group_by_topic_and_partition pr_topic pr_partition payloads) T ->
+  parse_request orc w = Some (mkSreq 0 (produce_header_version v) corr (Some cid) (SProduce acks timeout T)).
+Proof. exact produce_parses. Qed.
+Print Assumptions C04_produce.
+
+(* the sets the Producer builds (create_message_set, codec none or gzip, either format) satisfy that view, with
+   the wrapper's inner messages = the messages created from the (key, payloads) requests, in order; the only
+   hypothesis on compression is inflate (deflate x) = x on byte strings *)
+Theorem C04_created_set_view : forall orc clock reqs codec magic ms eclock ek,
+  oracle_gzip_ok orc ->
+  create_message_set orc clock reqs codec magic = Ok ms ->
+  forallb request_ok reqs = true ->
+  codec = CODEC_NONE \/ codec = CODEC_GZIP -> magic = 0 \/ magic = 1 ->
+  top_set_view orc eclock ek 0 0 ms (created_views clock reqs codec magic ms) /\
+  (forall m, In m ms -> uses_clock m = false).
+Proof. exact created_set_view. Qed.
+Print Assumptions C04_created_set_view.
+
+(* the Producer's path composed: version state resolved by the client ([resolved_ok]: the fallback, or a table of a
+   broker that implements discovery), format chosen from it, set built, request encoded with the version looked
+   up for Produce: the request is grammatical, carries exactly the created messages, and the message format is
+   the one of the version written in the header *)
+Theorem C04_producer_request : forall orc clock eclock cid corr topic partition reqs codec acks timeout st pv mg ms w,
+  oracle_gzip_ok orc ->
+  resolved_ok st -> version_for st PRODUCE_KEY = Some pv -> producer_magic st = Some mg ->
+  create_message_set orc clock reqs codec mg = Ok ms ->
+  forallb request_ok reqs = true -> codec = CODEC_NONE \/ codec = CODEC_GZIP ->
+  present topic = true ->
+  encode_produce_request eclock cid corr [mkProduce topic partition ms] acks timeout pv = Ok w ->
+  exists r, parse_request orc w = Some r /\
+            r = mkSreq 0 (produce_header_version pv) corr (Some cid)
+                       (SProduce acks timeout [(abytes topic, [(partition, created_views clock reqs codec mg ms)])]) /\
+            format_matches_version r = true.
+Proof. exact producer_request_conforms. Qed.
+Print Assumptions C04_producer_request.
 
 (* ---- Fetch v0 / v1 / v2: one layout; the header carries min(api_version, 2) ---- *)
 Theorem C04_fetch : forall orc cid corr payloads max_wait min_bytes v w,
@@ -93,6 +152,21 @@ Theorem C04_sync_group : forall orc cid corr p w,
                 (map (fun ma => (ubytes (fst ma), obytes_val (snd ma))) (sg_assignment p)))).
 Proof. exact sync_group_parses. Qed.
 Print Assumptions C04_sync_group.
+
+(* the consumer-protocol structures carried as BYTES by JoinGroup / SyncGroup *)
+Theorem C04_subscription : forall version subs ud w,
+  encode_join_group_protocol_metadata version subs ud = Ok w ->
+  forallb present subs = true ->
+  parse_subscription w = Some (version, map ubytes subs, ud).
+Proof. exact subscription_parses. Qed.
+Print Assumptions C04_subscription.
+
+Theorem C04_assignment : forall version asg ud w,
+  encode_sync_group_member_assignment version asg ud = Ok w ->
+  forallb (fun tp => present (fst tp)) asg = true ->
+  parse_assignment w = Some (version, map (fun tp : text * list Z => (abytes (fst tp), snd tp)) asg, ud).
+Proof. exact assignment_parses. Qed.
+Print Assumptions C04_assignment.
 
 (* ApiVersions v0 is the header and nothing else; the header carries the key and version of the
    ApiVersionRequest that was passed in *)
@@ -183,6 +257,15 @@ Theorem C04_choice_consistent_always : forall discovery evs c,
 Proof. exact choice_consistent_always. Qed.
 Print Assumptions C04_choice_consistent_always.
 
+(* once resolved, the cell is FINAL, whatever calls, answers (tables or error codes) and failures of overlapping
+   lookups follow (the first lookup to finish decides: fixes 276cfa2 / 8e462bd for findings F-C04-4 / F-C04-5): the
+   format the Producer chose stays the format of the version the client writes, also for retries of the same payloads *)
+Theorem C04_resolved_state_final : forall discovery a b,
+  is_unknown (cell (run_events discovery a)) = false ->
+  cell (run_events discovery (a ++ b)) = cell (run_events discovery a).
+Proof. exact resolved_state_final. Qed.
+Print Assumptions C04_resolved_state_final.
+
 (* ---- non-vacuity ---- *)
 Definition ex_cid : list Z := [97; 102; 107].                      (* b"afk" *)
 Definition ex_topic : text := Some [116; 49].                      (* "t1" *)
@@ -227,3 +310,59 @@ Example negotiation_nonvacuous :
   negotiate true [Unavailable; Unavailable; Answer 35 []] = Some fallback_choice /\
   negotiate true [Unavailable; Unavailable] = None.
 Proof. split; [vm_compute; reflexivity|]. split; [vm_compute; reflexivity|]. split; vm_compute; reflexivity. Qed.
+
+(* Produce: both formats, null and empty keys/values, a format-1 message without timestamp (clock reading 1000),
+   attribute bits outside the codec field, two partitions of one topic and a second topic *)
+Definition ex_msgs0 := [mkMessage 0 0 None (Some [118]) None; mkMessage 0 8 (Some []) None None].
+Definition ex_msgs1 := [mkMessage 1 0 (Some [107]) (Some []) (Some 1500000000123); mkMessage 1 0 None (Some [1; 255]) None].
+Definition ex_produce := [mkProduce ex_topic 0 ex_msgs0; mkProduce (Some [116; 50]) 7 []; mkProduce ex_topic 1 ex_msgs1].
+Example produce_nonvacuous :
+  all_uncompressed ex_produce = true /\ topics_present pr_topic ex_produce = true /\
+  match encode_produce_request (fun k => 1000 + Z.of_nat k) ex_cid 5 ex_produce 1 1000 2 with
+  | Ok w => parse_request marker_oracle w =
+              Some (mkSreq 0 2 5 (Some ex_cid) (SProduce 1 1000
+                [([116; 49], [(0, [SPlain (mkPmsg 0 0 0 None None (Some [118])); SPlain (mkPmsg 0 0 8 None (Some []) None)]);
+                              (1, [SPlain (mkPmsg 0 1 0 (Some 1500000000123) (Some [107]) (Some []));
+                                   SPlain (mkPmsg 0 1 0 (Some 1000) None (Some [1; 255]))])]);
+                 ([116; 50], [(7, [])])]))
+  | Err _ => False
+  end.
+Proof. split; [vm_compute; reflexivity|]. split; [vm_compute; reflexivity|]. vm_compute. reflexivity. Qed.
+
+(* the Producer's path with a gzip wrapper (marker oracle), format 1, version state = an advertised table *)
+Definition ex_reqs : list send_request := [(Some [107], [Some [97]; None]); (None, [Some []])].
+Example producer_nonvacuous :
+  oracle_gzip_ok marker_oracle /\ resolved_ok (VTable ex_table) /\ forallb request_ok ex_reqs = true /\
+  version_for (VTable ex_table) PRODUCE_KEY = Some 3 /\ producer_magic (VTable ex_table) = Some 1 /\
+  match create_message_set marker_oracle (fun k => 50 + Z.of_nat k) ex_reqs CODEC_GZIP 1 with
+  | Ok ms =>
+      match encode_produce_request (fun _ => 0) ex_cid 9 [mkProduce ex_topic 4 ms] 1 1000 3 with
+      | Ok w =>
+          match parse_request marker_oracle w with
+          | Some r => s_version r = 2 /\ format_matches_version r = true /\
+                      match s_body r with
+                      | SProduce 1 1000 [([116; 49], [(4, [SWrap wm inner])])] =>
+                          p_magic wm = 1 /\ p_attr wm = 1 /\ p_ts wm = Some 53 /\
+                          inner = [mkPmsg 0 1 0 (Some 50) (Some [107]) (Some [97]);
+                                   mkPmsg 0 1 0 (Some 51) (Some [107]) None;
+                                   mkPmsg 0 1 0 (Some 52) None (Some [])]
+                      | _ => False
+                      end
+          | None => False
+          end
+      | Err _ => False
+      end
+  | Err _ => False
+  end.
+Proof.
+  split; [exact marker_oracle_ok|]. split; [right; exists ex_table; split; vm_compute; reflexivity|].
+  split; [vm_compute; reflexivity|]. split; [vm_compute; reflexivity|]. split; [vm_compute; reflexivity|].
+  vm_compute. repeat split; reflexivity.
+Qed.
+
+(* the histories of findings F-C04-4 / F-C04-5 as regression vectors *)
+Example race_nonvacuous :
+  is_unknown (cell (run_events true race_prefix)) = false /\
+  choose (cell (run_events true (race_prefix ++ [Reply 0 Unavailable]))) = Some (mkChoice 7 2 (Some 2) 10 2 (Some 2) 1) /\
+  choose (cell (run_events true (race_prefix ++ [Reply 0 (Answer 35 [])]))) = Some (mkChoice 7 2 (Some 2) 10 2 (Some 2) 1).
+Proof. split; [vm_compute; reflexivity|]. split; vm_compute; reflexivity. Qed.
